@@ -13,7 +13,7 @@ The model is run over the *symbolic* description of the signature (who signed, o
 randoms and parameters) with the term-algebra `verify`; the spec is evaluated over the
 verdicts the driver computed with the real libraries (`sigvalid`, chain verdicts, `fin`).  The
 two must tell the same story: if the ideal-signature reading of the scenario and the real SM2
-verification differ, the case is flagged `harness-sig-law`.
+verification differ, the case is flagged `signature-content`.
 -/
 import Gotlcp.Oracle.Common
 import Gotlcp.Model.ClientAuthn
@@ -171,7 +171,7 @@ def judge (c o : String) : Option Verdict := do
   let lawBroken := skxP && ncerts ≥ 2 && parse && (symValid != (sigvalid && wf))
   let spec :=
     if lawBroken then
-      some ("harness-sig-law", s!"scenario says the signature is {if symValid then "valid" else "invalid"} over this handshake but SM2 verification says sigvalid={b01 sigvalid}")
+      some ("signature-content", s!"by construction of the scenario the signature is {if symValid then "valid" else "invalid"} over this handshake's randoms and parameters, but an independent SM2 verification over exactly those bytes says sigvalid={b01 sigvalid}: the peer signs other bytes than the standard's (or the scenario is wrong)")
     else Spec.ClientAuthn.judge (!skip) ev sev observation
   pure { model := model, spec := spec, note := note }
 
